@@ -9,8 +9,11 @@ REC_RND = T([dict(n=8, len=30, procs=6, cfg="users=2"),
              dict(n=2, len=800, procs=6, cfg="users=3,maxmsgs=10,maxtx=3,winfirst=30,winmod=50")])
 REC_GEN = T([dict(cfg="GEN_Record.cfg", num=12, depth=12, seeds=6)],
             [dict(cfg="GEN_Record.cfg", num=80, depth=16, seeds=12)])
-REC_MC = T([dict(cfg="MC_Record.cfg", timeout=900)], [dict(cfg="MC_Record_big.cfg", timeout=3400)])
+REC_MC = T([dict(cfg="MC_Record.cfg", timeout=900, heap="4g")], [dict(cfg="MC_Record_big.cfg", timeout=3400, heap="4g")])
 REC_SCN = [dict(file="scenarios/record_coverage.ndjson", cfg="users=2,winfirst=3,winmod=4")]
+
+# histories recorded (VERIF_RECORD_DIR) for the cross-module checks C11 / C12
+RECORD = [dict(binary="record", n=T(3, 12), len=30, cfg="users=2")]
 
 PROPS = {
     "C19": ModuleCheck("record", "Record.tla", "RecordTrace.tla", "RecordTrace.cfg", REC_CLAUSES,
